@@ -12,6 +12,11 @@ use std::sync::{Arc, LockResult, PoisonError, RwLock};
 pub enum Event {
     /// The calling thread is about to acquire the lock (it holds no chunker lock now).
     Acquire,
+    /// The calling thread is about to try to acquire the lock without blocking.
+    TryAcquire,
+    /// The calling thread has just acquired the lock (after `Acquire`, or a successful
+    /// `TryAcquire`) and holds it now.
+    Acquired,
     /// The calling thread has just released the lock.
     Release,
 }
@@ -44,12 +49,33 @@ impl<T> Mutex<T> {
         Mutex(std::sync::Mutex::new(t))
     }
 
-    /// Like `std::sync::Mutex::lock`, reporting `Acquire` first.
+    /// Like `std::sync::Mutex::lock`, reporting `Acquire` first and `Acquired` afterwards.
     pub fn lock(&self) -> LockResult<MutexGuard<'_, T>> {
         notify(Event::Acquire);
-        match self.0.lock() {
+        let r = match self.0.lock() {
             Ok(g) => Ok(MutexGuard(Some(g))),
             Err(p) => Err(PoisonError::new(MutexGuard(Some(p.into_inner())))),
+        };
+        notify(Event::Acquired);
+        r
+    }
+
+    /// Like `std::sync::Mutex::try_lock`, reporting `TryAcquire` first and, on success,
+    /// `Acquired`. (`chunker.rs` does not use it; it is here so that a change which starts to
+    /// does not escape the instrumentation.)
+    pub fn try_lock(&self) -> std::sync::TryLockResult<MutexGuard<'_, T>> {
+        use std::sync::TryLockError;
+        notify(Event::TryAcquire);
+        match self.0.try_lock() {
+            Ok(g) => {
+                notify(Event::Acquired);
+                Ok(MutexGuard(Some(g)))
+            }
+            Err(TryLockError::Poisoned(p)) => {
+                notify(Event::Acquired);
+                Err(TryLockError::Poisoned(PoisonError::new(MutexGuard(Some(p.into_inner())))))
+            }
+            Err(TryLockError::WouldBlock) => Err(TryLockError::WouldBlock),
         }
     }
 }
